@@ -440,6 +440,8 @@ def mc_runs(ck):
         runs += [
             ("masks + parents", dict(GetAttrs='{"masks", "stack"}', EditSet="EditsMasks", OpenLeaves='{"n4", "n3"}'),
              OBJ_INVS, OBJ_PROPS),
+            ("env, two files", dict(Objs='{"o1"}', GetAttrs='{"default_env", "use"}', OpenLeaves='{"n4", "n2"}',
+                                    EditSet="EditsQ2", StrictChoices="{TRUE, FALSE}"), OBJ_INVS, OBJ_PROPS),
             ("mixed", dict(Objs='{"o1"}', GetAttrs='{"masks", "system", "default_env"}', OpenLeaves='{"n4"}',
                            EditSet="EditsMixed", StrictChoices="{FALSE}"), OBJ_INVS, OBJ_PROPS),
         ]
@@ -532,7 +534,7 @@ def _run(ck, scratch, cap):
                                                               workers=1, timeout=900)))
         # 2. spec -> code: the simulation runs while the random histories are executed
         D = ck.pick(12, 18)
-        nsim = ck.pick(40, 200)
+        nsim = ck.pick(50, 200)
         sim_consts = dict(Objs='{"o1", "o2"}', GetAttrs="AllAttrs", OpenLeaves='{"n4", "n3", "n2"}', EditSet="EditsQ1",
                           StrictChoices="{TRUE, FALSE}", PSetChoices="{TRUE, FALSE}")
         sim_cfg = mc_cfg(sim_consts, ["Emit"], [], spec="SimSpec", extra=f"CONSTANT D = {D}\n").replace(
@@ -543,7 +545,7 @@ def _run(ck, scratch, cap):
         pending = []  # (label, events, hists, future)
         events, hists = [], {}
         tid = 0
-        nrand = ck.pick(110, 1600)
+        nrand = ck.pick(180, 1600)
         batch = 400
         for b0 in range(0, nrand, batch):
             for k in range(b0, min(nrand, b0 + batch)):
